@@ -9,17 +9,21 @@ def T(level, technique, note=BASE_NOTE, **kw):
 COMMON = ("TLC exhaustively checks bounded instances of CacheD.tla (every interleaving of callers, worker, sweeper at the grain of the code's critical sections) with the property's judge evaluated on every step; "
           "the real cache is then driven under a deterministic scheduler through seeded random histories and schedules, every step is recorded with the projected state, and TLC validates the trace: "
           "each step must be the specification's action for that site (divergences are counted) and the same judge is evaluated on every recorded step. ")
+COMMON = COMMON + ("The schedules include TLC-simulated behaviours replayed step by step, sends entered on a full command queue (which must block until the worker makes room), "
+                   "and runs that also interleave in front of every lock acquisition of the cache ('lock grain': a span between two named points is checked as one specification step when only its last sub-step changes the observed state). ")
 TECH = "TLA+ spec (CacheD.tla) model-checked with TLC + TLC trace validation of deterministic-scheduler runs of the real code"
+HIST = ("In addition free-running threads (no scheduler) produce sequential histories on private keys under heavy read contention; TLC checks every recorded call against the sequential meaning of the calls (TraceHist.tla). ")
+TECH_H = TECH + " + TLC validation of free-running private-key histories (TraceHist.tla)"
 
 TEXTS = {
  "C01": T(COMMON + "The judge is the bound 0 <= used <= max in every micro-state (and used <= max right after every accepted put); excess explained by recorded finding D2 (unchecked UpdateWeight) is reported as KNOWN-FINDING.", TECH),
- "C02": T(COMMON + "The judge keeps, per key, the set of values a read may legitimately return (writes begun, minus those superseded by a completed later write/delete) and checks every value returned by all seven read variants against it.", TECH),
- "C03": T(COMMON + "The judge tracks, per key used sequentially, the latest acknowledged value and deadline and requires every read before the deadline to return it as long as no eviction was ever needed.", TECH),
- "C04": T(COMMON + "Judges: a value hidden by a delete that has returned is never read again; an accepted delete leaves no entry and no charged weight; deleting an absent key is rejected with KeyDoesNotExist and changes nothing.", TECH),
+ "C02": T(COMMON + HIST + "The judge keeps, per key, the set of values a read may legitimately return (writes begun, minus those superseded by a completed later write/delete) and checks every value returned by all seven read variants against it.", TECH_H),
+ "C03": T(COMMON + HIST + "The judge tracks, per key used sequentially, the latest acknowledged value and deadline and requires every read before the deadline to return it as long as no eviction was ever needed.", TECH_H),
+ "C04": T(COMMON + HIST + "Judges: a value hidden by a delete that has returned is never read again; an accepted delete leaves no entry and no charged weight; deleting an absent key is rejected with KeyDoesNotExist and changes nothing.", TECH_H),
  "C05": T(COMMON + "Judge at every quiescent state: charged ids = ids of held entries and total = sum of charged weights.", TECH),
  "C06": T(COMMON + "Judges on every admission step, from the logged decision (incoming estimate, sample, victim, space): fits => accepted without eviction; too heavy => rejected unchanged; victim has the lowest estimate of the sample; eviction only while victim estimate <= incoming; accepted iff enough space results.", TECH),
- "C07": T(COMMON + "Judges on the caller-side and worker-side existence checks and on the store write: readable key => KeyAlreadyExists and nothing changes; KeyAlreadyExists only if an entry is there (elapsed-TTL entries: recorded finding D4).", TECH),
- "C08": T(COMMON + "Judges on the in-place update step (value/TTL exactly as requested, the other unchanged), on the command queued (put variant / explicit weight), and on the worker's weight update.", TECH),
+ "C07": T(COMMON + HIST + "Judges on the caller-side and worker-side existence checks and on the store write: readable key => KeyAlreadyExists and nothing changes; KeyAlreadyExists only if an entry is there (elapsed-TTL entries: recorded finding D4).", TECH_H),
+ "C08": T(COMMON + HIST + "Judges on the in-place update step (value/TTL exactly as requested, the other unchanged), on the command queued (put variant / explicit weight), and on the worker's weight update.", TECH_H),
  "C09": T(COMMON + "Judges on every key lookup against the entry's deadline at that instant (served => not past; hidden => not before; boundary instant open) and on the deadline stored by TTL puts and upserts.", TECH),
  "C10": T(COMMON + "Judges on every removal by the sweeper (same incarnation, has an expiry, expiry not in the future), on the swept shard after the sweep (no expired entry left, right shard visited) and, at quiescence, on the registration of every deadline in the index.", TECH),
  "C11": T(COMMON + "Judges: the worker receives exactly the head of the specification's queue; acknowledgements complete in submission order and never change; none is pending at quiescence; put;delete of one key by one thread leaves it absent.", TECH),
